@@ -9,3 +9,4 @@ import (
 // stubs for rules built in later steps
 func ruleBitOrigin(r *rep.Report, p *load.Program, pkg string)                               {}
 func rulePanicSites(r *rep.Report, p *load.Program, rl *roles.Roles)                        {}
+func ruleArithStructure(r *rep.Report, p *load.Program)                                      {}
